@@ -102,6 +102,13 @@ TYPES = {
     'KeyMaxLt': ('block', 'KeyMaxLt'),
     'Counters': ('block', 'Counters'),
     'CreatorStats': ('block', 'CreatorStats'),
+    'McStateExtra': ('block', 'McStateExtra'),
+    'BlockExtra': ('block', 'BlockExtra'),
+    'ShardStateUnsplit': ('block', 'ShardStateUnsplit'),
+    'ValidatorInfo': ('block', 'ValidatorInfo'),
+    'BlockCreateStats': ('block', 'BlockCreateStats'),
+    'AccountBlock': ('account', 'AccountBlock'),
+    'LibRef': ('transaction', 'LibRef'),
     'ValidatorSet': ('config', 'ValidatorSet'),
     'ValidatorDescr': ('config', 'ValidatorDescr'),
     'SigPubKey': ('config', 'SigPubKey'),
@@ -149,7 +156,7 @@ def nv(v):
             return ('pruned', v['@pruned'])
         out = {}
         for k, x in v.items():
-            out[k] = x if k in ('@c', '@cell') else nv(x)
+            out[k] = x if k in ('@c', '@cell', '@raw') else nv(x)
         return out
     if isinstance(v, list):
         return [nv(x) for x in v]
@@ -324,6 +331,12 @@ class Cmp:
         for k, x in l.items():
             if isinstance(k, str) and set(k) <= {'0', '1'} and k:
                 k = int(k, 2)
+            if isinstance(k, int) and k < 0:
+                # dictionary keys are bit strings; a parser may present them as signed integers (config parameter ids)
+                for w in (8, 16, 32, 64, 256):
+                    if -(1 << (w - 1)) <= k and (k + (1 << w)) in s:
+                        k += 1 << w
+                        break
             lk[k] = x
         if set(lk) != set(s):
             self.bad(path, f'library keys {sorted(lk, key=str)[:6]} vs schema keys {sorted(s)[:6]}')
@@ -343,11 +356,16 @@ class Cmp:
             if not isinstance(s['other'], tuple):        # a pruned dictionary is not compared
                 self.mapping(path + '.other', s['other'], od)
             return
-        fields = [k for k in s if k not in ('@c', '@cell')]
+        fields = [k for k in s if k not in ('@c', '@cell', '@raw')]
         if isinstance(l, tuple) and l and l[0] == 'cell' and '@cell' in s:
             # the library keeps this reference raw: it must be the encoded cell
             if l[1] != s['@cell'].hash().hex():
                 self.bad(path, 'library keeps a raw cell that is not the encoded reference')
+            return
+        if isinstance(l, tuple) and l and l[0] == 'slice' and '@raw' in s:
+            # a dictionary value the library keeps as an unparsed slice: it must be the encoded value
+            if (l[1], l[2]) != (s['@raw'][0], tuple(r.hash().hex() for r in s['@raw'][1])):
+                self.bad(path, 'library keeps a raw slice that is not the encoded dictionary value')
             return
         if c in ('bt_leaf', 'bt_fork') and isinstance(l, dict) and 'list' in l:
             leaves = []
